@@ -101,6 +101,31 @@ def cell_cover(rng):
             nodes.append((f"dotmv:{dt}", V.DotProduct(U.y, M.MatrixVectorProduct(Qd, v))))
         nodes.append((f"dotrw:{dt}", U.x.dot(Qd @ U.x)))
         nodes.append((f"lc2:{dt}", 2 * (cd @ U.x) + (cd @ U.x) * 3))
+    # vector operands taken out of matrices (rows / columns / diagonals of general, symmetric and transposed
+    # matrices: a symmetric matrix shares its off-diagonal Variable objects between two positions)
+    def mvecs():
+        out_ = []
+        for m in (U.M, U.S, U.M.T, U.S.T):
+            for mk in (lambda m: m[0, :], lambda m: m[:, 1], lambda m: m[1, ::-1], lambda m: m.diagonal()):
+                try:
+                    out_.append(mk(m))
+                except Exception:  # noqa: BLE001
+                    pass
+        return out_
+    c2, Q2 = np.array([2.0, -0.5]), np.array([[1.5, -2.0], [0.25, 3.0]])
+    for v in mvecs():
+        if len(list(v)) != 2:
+            continue
+        nodes.append(("m:lc", V.LinearCombination(c2, v)))
+        nodes.append(("m:l2", V.L2Norm(v)))
+        nodes.append(("m:l1", V.L1Norm(v)))
+        nodes.append(("m:qf", M.QuadraticForm(v, Q2)))
+        nodes.append(("m:dotself", V.DotProduct(v, v)))
+        nodes.append(("m:dot", V.DotProduct(v, U.x[0:2])))
+        nodes.append(("m:dotm", V.DotProduct(v, U.S[:, 0])))
+        nodes.append(("m:vs", V.VectorSum(v)))
+        nodes.append(("m:ps3", V.VectorPowerSum(v, 3)))
+        nodes.append(("m:ussin", V.VectorUnarySum(v, "sin")))
     for v in views:
         nodes.append(("vs", V.VectorSum(v)))
         for k in [1, 2, 3, 0.5, -1, 2.5, 0]:
@@ -199,6 +224,24 @@ def run(ctx) -> core.Report:
         pool = vs + U.all_vars()[:3]
         w = rng.choice(pool) if pool else U.scalars[0]
         cases.append(("rand-safe" if safe else "rand", e, w, safe))
+
+    # the same compound sub-expression OBJECT at several places of one tree (the differentiator memoises by id)
+    from optyx.core.expressions import BinaryOp, UnaryOp, Constant
+    for i in range(1500 if thorough else 250):
+        U = gen.Universe(rng)
+        t = gen.rand_expr(rng, U, rng.randint(1, 3), safe=True)
+        u = gen.rand_expr(rng, U, rng.randint(0, 2), safe=True)
+        form = rng.choice(["t*t", "t+t", "t-t", "t/u+t", "f(t)*t", "(t*u)+(u*t)", "t**2*t", "dot"])
+        e = {"t*t": lambda: BinaryOp(t, t, "*"), "t+t": lambda: BinaryOp(t, t, "+"), "t-t": lambda: BinaryOp(t, t, "-"),
+             "t/u+t": lambda: BinaryOp(BinaryOp(t, BinaryOp(BinaryOp(u, u, "*"), Constant(1.0), "+"), "/"), t, "+"),
+             "f(t)*t": lambda: BinaryOp(UnaryOp(t, rng.choice(["sin", "exp", "tanh"])), t, "*"),
+             "(t*u)+(u*t)": lambda: BinaryOp(BinaryOp(t, u, "*"), BinaryOp(u, t, "*"), "+"),
+             "t**2*t": lambda: BinaryOp(BinaryOp(t, Constant(2), "**"), t, "*"),
+             "dot": lambda: __import__("optyx.core.vectors", fromlist=["VectorExpression"]).VectorExpression([t, u, t]).dot(
+                 __import__("optyx.core.vectors", fromlist=["VectorExpression"]).VectorExpression([u, t, t]))}[form]()
+        vs = gen.expr_vars(e)
+        if vs:
+            cases.append(("shared:" + form, e, rng.choice(vs), True))
 
     ids = Ids()
     lines, metas = [], []
